@@ -32,9 +32,17 @@ def env_ref(rng, name=None):
     return rng.choice(['$', '${}', '$()', '$1', '${' + n + ')', '$(' + n + '}', '$ ' + n, '$' + n + '_'])
 
 
+NFUN = [0]      # number of functions f<k> the application has registered in the case being generated (see fn_world)
+
+
 def call(rng, depth):
-    f = rng.randrange(12)
     k = rng.choice(KEYS)
+    if NFUN[0] and rng.random() < 0.3:
+        # a call to a registered function, to the one just beyond the registered ones, or a near miss
+        j = rng.choice([0, NFUN[0] - 1, NFUN[0], rng.randrange(NFUN[0] + 2)])
+        arg = rng.choice(['', 'x', k, '100%', '$A', '~']) if depth <= 0 or rng.random() < 0.5 else call(rng, depth - 1)
+        return rng.choice(['%%f%d(%s)', '%%f%d(%s)', '%%F%d(%s)', '%%f%d )%s)', '%%f%d(%s', '%%f%d %s', '%%f%d[%s]']) % (j, arg)
+    f = rng.randrange(12)
     if f < 3:
         arg = k if depth <= 0 or rng.random() < 0.6 else call(rng, depth - 1)
         if rng.random() < 0.3:
@@ -292,6 +300,92 @@ def gen_world_exec(rng, lens, tier, tmpd):
     return cases
 
 
+# ---- functions the application registers with spifconf_register_builtin ----
+# the function table starts with room for 10 entries, 7 of them taken by the library, and doubles: 3, 13, 33, 73 and 153
+# registrations fill it to the brim; the context table (room for 20) doubles at the 20th, 40th, 80th registered context
+FN_COUNTS_QUICK = [0, 1, 2, 3, 4, 5, 9, 10, 11, 12, 13, 14, 19, 20, 21, 32, 33, 34, 39, 40, 41, 72, 73, 74]
+FN_COUNTS_MORE = [6, 7, 8, 15, 16, 31, 35, 63, 64, 65, 71, 75, 79, 80, 81, 100, 127, 128, 129, 152, 153, 154, 159, 160, 161, 199, 200]
+CTX_COUNTS = [0, 1, 18, 19, 20, 21, 38, 39, 40, 41, 78, 79, 80, 81]
+
+
+def fn_texts(n):
+    """values for a table of 7 + n functions: a % that starts no call, calls to unknown names (among them the name just
+    beyond the registered ones), near misses of known names, calls to the registered functions in both call forms, nested"""
+    t = ['a 100% b', '%nosuch(1)', '%', '%%', '100%', '50%(', '% )', '%(x)', '%f', '%f(', '%%f%d(x)' % n, '%%f%d' % n, '%%F%d )x)' % n,
+         "'%nosuch(1)'", '"%nosuch(1) ~"', '%nosuch(%get(k d))', '%get(k 100%)', '%put(k 5%)%get(k)', '\\%%\\%', '%$A', '%~', '%\\n',
+         '%version', '%version%', '%ge(', '%getx(1)', '%xget(k)', '%put', '%%get(k d)', '%%%', 'x%', '%dirscanx(d)', '%rando(1)', '%e(x)']
+    if n:
+        last = n - 1
+        t += ['%f0(x)', '%F0(x)', '%f0 )x)', '%f0()', '%f0( )', '%f0', '%f0(', '%f0(x', '%%f%d(x)' % last, '%%f%d(%%f0(%%get(k d)))' % last,
+              '%f0(100%)', '%f0(%nosuch(1))', '%nosuch(%f0(a))', '%put(k %f0(v))[%get(k)]', '%f0($A)%f0(~)', "'%f0(x)'",
+              '%f0(%f0(%f0(%f0(x))))', '%%f0(a)%%f%d(b)%%f0(c)' % last, '%%f%d(' % last, '%f0(%get((x)', '%f0(%get ) x)', '%f00(x)', '%f0x(x)']
+    return t
+
+
+def fn_world(total, start=None, nctx=0, extra=()):
+    w = ['@F=%d' % total] if total else []
+    w += list(extra)
+    if start is not None:
+        w.append('@n=%d' % start)
+    if nctx:
+        w.append('@c=%d' % nctx)
+    return w
+
+
+def gen_functions(rng, tier):
+    quick = tier == 'quick'
+    counts = FN_COUNTS_QUICK if quick else sorted(set(FN_COUNTS_QUICK + FN_COUNTS_MORE))
+    env = ['%s=%s' % (hx('HOME'), hx('/h')), '%s=%s' % (hx('A'), hx('va'))]
+    cases = []
+    for i, n in enumerate(counts):
+        # one cycle: n functions registered, every text; then more registrations in the same cycle, the texts again
+        n2 = counts[(i + 1) % len(counts)] if i + 1 < len(counts) else n
+        n3 = rng.choice(counts)
+        n4 = rng.choice([0, 1, 3, 4, 13, 14, rng.choice(counts)])
+        total = max(n, n2, n3, n4)
+        ops = [e(t) for t in fn_texts(n)] + ['g:' + hx('k')]
+        if n2 > n:
+            ops += ['r:%d' % n2] + [e(t) for t in fn_texts(n2)]
+        # a second and a third init / register / use / free cycle with other numbers of registrations
+        ops += ['c:%d' % n3] + [e(t) for t in fn_texts(n3)] + ['g:' + hx('k')]
+        ops += ['c:%d' % n4] + [e(t) for t in fn_texts(n4)] + ['r:%d' % total, e('%%f%d(x)%%f%d(y)' % (max(0, total - 1), total)), 'g:' + hx('k')]
+        cases.append(wcase(env + fn_world(total, n, rng.choice(CTX_COUNTS)), ops))
+        # the shortest form: registrations, then one value
+        for t in ('a 100% b', '%nosuch(1)', '%%f%d(x)' % n, '%%f%d(x)' % max(0, n - 1)):
+            cases.append(wcase(fn_world(n), [e(t)]))
+    # registrations one at a time, a value with an unmatched % after each
+    steps = []
+    for k in range(0, 42 if quick else 200):
+        steps += ['r:%d' % k, e('100%% %%f%d(x)%%f%d(y)' % (max(0, k - 1), k))]
+    cases.append(wcase(fn_world(42 if quick else 200, 0), steps))
+    cases.append(wcase(fn_world(42 if quick else 200, 0, 41), steps))
+    # names: empty, a built-in's name (the built-in comes first), prefixes and extensions of names, blanks and parentheses inside,
+    # high-bit bytes, either case, the same name twice (the first registration wins), a long name; answers: NULL, empty,
+    # expansion characters (an answer is not expanded again), long (cut at the line limit)
+    odd = [('', '[E:'), ('get', '[shadowed:'), ('ge', '[ge:'), ('getx', '[getx:'), ('f', '[f:'), ('f1', '[f1:'), ('f10', '[f10:'), ('F2', '[F2:'),
+           ('a b', '[a b:'), ('p(', '[p(:'), ('q ', '[q :'), ('%', '[pct:'), ('\xe9t\xc9', '[hi:'), ('\xc9T', '[HI:'), ('dup', '[dup1:'), ('dup', '[dup2:'),
+           ('n' * 300, '[long:'), ('null', None), ('empty', ''), ('meta', "%get(k)$A~\\n'`\""), ('version', '[version2:'), ('1', '[1:')]
+    oddw = ['@f%s=%s' % (hx(nm), '!' if r is None else hx(r)) for nm, r in odd]
+    oddt = ['%(x)', '%()', '% )x)', '%get(k d)', '%GET(k d)', '%ge(x)', '%getx(x)', '%f(x)', '%f1(x)', '%f10(x)', '%f100(x)', '%f2(x)', '%F2(x)', '%f3(x)',
+            '%a b(x)', '%a(x)', '%a b )x)', '%p((x)', '%p(x)', '%p( )x)', '%q (x)', '%q )x)', '%q  )x)', '%%(x)', '%% )x)', '%\xe9t\xc9(x)', '%\xc9T\xe9(x)',
+            '%\xc9t(x)', '%dup(x)', '%DUP( )', '%' + 'n' * 300 + '(x)', '%' + 'n' * 299 + '(x)', '%' + 'N' * 301 + '(x)', '[%null(x)]', '[%null()]',
+            '[%empty()]', '[%empty(x)]', '[%empty(%null(x))]', '%meta()', '%meta(%meta())', '%put(k %meta(v))%get(k)', '%version(x)', '%1(x)', '%1',
+            '%f1(%f10(%f(%(%ge(%getx(deep))))))', '%f(%get((x)', '%f(%f()', "%f(')')", '%f(\\))', '100%', '%nosuch(%f(x))']
+    for start in (None, 0, 1, 3, 4):
+        ops = [e(t) for t in oddt]
+        if start is not None:
+            ops += ['r:%d' % len(odd)] + [e(t) for t in oddt]
+        ops += ['c:2'] + [e(t) for t in oddt[:12]] + ['c:%d' % len(odd)] + [e(t) for t in oddt[:20]]
+        cases.append(wcase(['%s=%s' % (hx('A'), hx('va'))] + fn_world(0, start, 20 if start else 0, oddw), ops))
+    # long answers and long arguments: the sizes of the fixed buffers and their neighbours (a long value inside a call is slow in the model)
+    for n in ([255, 256, 4096, CB - 2, CB - 1, CB, CB + 1] if quick else [1, 127, 128, 255, 256, 257, 4095, 4096, 4097, CB - 3, CB - 2, CB - 1, CB, CB + 1, 65536]):
+        w = ['%s=%s' % (hx('X'), vs(min(n, 4097)))] + fn_world(4, None, 0, ['@f%s=%s' % (hx('big'), vs(n, b'r'))])
+        ops = [e('%big()'), e('a%big()b'), e('%big()%big()'), e('%f3(%big())') if n <= (4097 if quick else 8193) else e('%f3()'), e('%big($X)') if n <= 4097 else e('%big(x)'),
+               e('%f0($X)%nosuch($X)100%'), e('%put(k %big())') if n <= 4097 else e('%put(k v)'), 'g:' + hx('k')]
+        cases.append(wcase(w, ops))
+    return cases
+
+
 class C10(vlib.PropertyCheck):
     id = 'C10'
     family = 'c10'
@@ -310,13 +404,24 @@ class C10(vlib.PropertyCheck):
                        'nested calls; a stratum expands %dirscan on interposed directory listings whose names and blanks add up to less than, exactly and more '
                        'than CONFIG_BUFF (0 to 2100 names of 1-255 characters, non-regular entries); a stratum expands %exec with the interposed command '
                        'printing 0 to 4097 (thorough: CONFIG_BUFF+1) bytes over ten byte patterns, commands around the length at which %exec refuses, '
-                       'temporary-directory names around the 256-byte name buffer; nesting depth up to 100 (thorough: 1000); non-trivial = the model result is '
+                       'temporary-directory names around the 256-byte name buffer; a stratum registers 0-5, 9-14, 19-21, 32-34, 39-41, 72-74 (thorough: up to 200) '
+                       'application functions - every doubling of the function table, next to 0-81 registered contexts - and then expands values with a % that '
+                       'starts no call, calls to unknown names (among them the name one beyond the registered ones), near misses, calls to the registered functions '
+                       'in both call forms and nested, again after further registrations in the same cycle, and in a second and third init/register/use/free cycle '
+                       'with other numbers of registrations; registrations one at a time with an unmatched % after each; odd names (empty, a built-in\'s name, '
+                       'prefixes/extensions, blanks and parentheses inside, high-bit bytes, duplicates, 300 characters) and answers (NULL, empty, expansion '
+                       'characters, up to CONFIG_BUFF+1 bytes); a third of the random histories run with registered functions; before every init the heap is '
+                       'dirtied and every malloc\'ed and realloc\'ed byte is painted; nesting depth up to 100 (thorough: 1000); non-trivial = the model result is '
                        'not a fault and the history contains at least one construct other than ordinary characters; distinct = '
                        'distinct case lines')
     assumptions = ['the input sits in an object of CONFIG_BUFF bytes (what spifconf_parse_line and the recursive call provide) and is shorter than CONFIG_BUFF',
                    'getenv is an oracle: the harness builds the environment with clearenv/setenv from the case line; model side: first NAME=value entry with that prefix, as glibc',
                    'environment values, program name and version contain no NUL byte and are shorter than 4 GB (strlen - 1 is kept in 32 bits)',
-                   'only the seven built-ins registered by spifconf_init_subsystem are present (table generated from the source)',
+                   'the function table holds the seven built-ins registered by spifconf_init_subsystem (generated from the source) followed by the functions the application '
+                   'registered, up to the first entry with a NULL name: that spifconf_register_builtin keeps that terminator is proved on the table model of C11 '
+                   '(C11_builtins_terminated) and observed here on the implementation for 0-200 registrations with painted heap blocks',
+                   'functions registered by the application are parameters like getenv: names are C strings; a function reads its argument and answers NULL or a '
+                   'C string shorter than 4 GB (the harness registers functions that answer a fixed text followed by their argument)',
                    '%random and backquotes are outside this property (the model stops with an event; C11 covers spawning and runs them under the sanitizers)',
                    'the outside world is a parameter like getenv: what a command run by %exec writes into its temporary file (a list of bytes shorter than 4 GB, '
                    'or "refused": no temporary file / command line too long) and the names of the regular files of a directory in readdir order (NUL-free; at most '
@@ -364,6 +469,7 @@ class C10(vlib.PropertyCheck):
         for _ in range(1000 if quick else 15000):
             env = mkenv(rng)
             ops = []
+            NFUN[0] = rng.choice(FN_COUNTS_QUICK) if rng.random() < 0.35 else 0
             for _ in range(rng.choice([1, 1, 2, 3, 5, 8])):
                 r = rng.random()
                 if r < 0.7:
@@ -375,7 +481,16 @@ class C10(vlib.PropertyCheck):
                     ops.append('d:' + hx(rng.choice(KEYS)))
                 else:
                     ops.append('g:' + hx(rng.choice(KEYS)))
-            cases.append(case(env, ops, rng.choice(['Eterm', 'libast', 'p' * 300, '']), rng.choice(['0.9.6', '', 'v' * 40])))
+            c = case(env, ops, rng.choice(['Eterm', 'libast', 'p' * 300, '']), rng.choice(['0.9.6', '', 'v' * 40]))
+            if NFUN[0]:
+                # the application's functions f0 .. f<n-1>, contexts registered next to them, and now and then a second cycle
+                t = c.split(' ')
+                t[3] = ','.join(([] if t[3] == '-' else [t[3]]) + fn_world(NFUN[0], None, rng.choice(CTX_COUNTS)))
+                if rng.random() < 0.3:
+                    t.insert(rng.randrange(4, len(t) + 1), 'c:%d' % NFUN[0])
+                c = ' '.join(t)
+            NFUN[0] = 0
+            cases.append(c)
         # 4. store histories: many put/delete/get through both the built-ins and the direct calls
         for _ in range(250 if quick else 4000):
             ops = []
@@ -448,6 +563,9 @@ class C10(vlib.PropertyCheck):
             cases += gen_world_limit(rng, [(4096, 0, 3), (CB - 2, 4, 0)])
         cases += gen_world_dirs(rng, tier)
         cases += gen_world_exec(rng, lens, tier, tmpd)
+        # 10. functions registered by the application: every doubling of the function table and of the context table, values with
+        #     a % that starts no call, unknown names, calls to the registered functions; a second and a third cycle
+        cases += gen_functions(rng, tier)
         # 9. nesting depth: 1000 nested calls (the scratch buffers are heap blocks since the repair; 160 s in the model)
         for depth in ([12, 100] if quick else [12, 100, 399, 400, 401, 1000]):
             cases.append(case(env0, [e('%get(' * depth + 'k' + ')' * depth)]))
@@ -491,7 +609,10 @@ C10.MANIFEST['text'] = (
     'buffer model refines for all inputs. spiftool_get_word/num_words are taken from the C12 model with its exactness theorems. '
     'The outside world of %exec and %dirscan is a pair of parameters (exec_out: command text -> not followed | refused | bytes written to the '
     'temporary file; dir_list: directory name -> not followed | cannot be opened | names of the regular files in readdir order) over which every theorem '
-    'above quantifies, like getenv; what the code does with the answers is modelled and covered by the same theorems: builtin_exec takes the bytes up to '
+    'above quantifies, like getenv; the functions the application registered with spifconf_register_builtin are two more such parameters (the '
+    '(name, code) list in registration order that follows the library\'s own entries in the table, any number of them, and the answer of each function '
+    'to NULL or to the text of its argument): every theorem holds for every such table, in particular a % that starts no call of the whole table is dropped '
+    'and the first matching entry is called; what the code does with the answers is modelled and covered by the same theorems: builtin_exec takes the bytes up to '
     'the first NUL through the C13 model of spiftool_condense_whitespace, builtin_dirscan runs its accumulation loop over a CONFIG_BUFF block. '
     'C10_dirscan_in_bounds: for EVERY listing (any number of names of any length) that loop - strcat of the name and of a blank while name, blank and '
     'terminator fit the room left (the repaired test; the unrepaired `len < n` wrote one byte past the block when names and blanks add up to exactly '
@@ -504,7 +625,8 @@ C10.MANIFEST['text'] = (
     'stack (reported; repaired by the fix that moves newbuff to a MALLOC(CONFIG_BUFF) block per call, which the model - a fresh '
     'unwritten block - and tools/gen_c10.py accept in either shape; generated nesting stays below 12). Tied to the current tree by running the extracted model and the ASan/UBSan build (conf.c '
     '#included by the harness so the static store can be reset and put/delete/get called directly) on the same generated histories; '
-    'each history runs three times: stack, malloc blocks and input slack painted 0xA5, then 0x5A (transcripts must be identical), then '
+    'each history runs three times, each time from a fresh cycle - heap dirtied with freed painted blocks of every table size, spifconf_init_subsystem, the '
+    'case\'s functions and contexts registered with every malloc\'ed and realloc\'ed byte painted, spifconf_free_subsystem at the end -: stack, malloc blocks and input slack painted 0xA5, then 0x5A (transcripts must be identical), then '
     'with every non-growing input in an exactly sized heap block so ASan traps a one-byte over-read; system/popen/fork/execve are '
     'wrapped: with a world entry @o the intercepted system() writes the given bytes to the command\'s output file, without it a call is reported as an '
     'event; opendir, readdir, closedir and stat of conf.c are redirected to the listings of the case line.')
